@@ -25,7 +25,8 @@ RULE = ("geometry: sizes^3 x resolutions^3 x target chunk sizes x max_scales "
         "100}) and large primes x 4 shapes x 3 resolutions x targets {64,8}; "
         "parameters: type x encoding x data_type x channels through "
         "set_info_params + fill + get_encoder, also for descriptions that "
-        "already carry an encoding, a type, a block size or a second scale. Sub-claims: distinct keys; "
+        "already carry an encoding, a type (image / segmentation), a block size or a second scale; a third of "
+        "the combinations go through the console script's main(argv). Sub-claims: distinct keys; "
         "size/resolution = full size and resolution by a per-axis "
         "power-of-two factor, non-decreasing, steps of 1 or 2; power-of-two "
         "chunk sizes with about target^3 voxels; last scale within two "
@@ -244,7 +245,7 @@ def _eval_geometry(col, size, res, target, max_scales, via_file=False):
            "geometry-ok" if ok else "geometry-bad")
 
 
-def _via_file(info, target, max_scales, typ=None, enc=None):
+def _via_file(info, target, max_scales, typ=None, enc=None, cli=False):
     from neuroglancer_scripts.scripts import generate_scales_info as g
     d = sandbox.fresh_dir("c08")
     try:
@@ -252,10 +253,28 @@ def _via_file(info, target, max_scales, typ=None, enc=None):
         with open(src, "w") as f:
             json.dump(info, f)
         dest = os.path.join(d, "out")
-        with sandbox.quiet():
-            g.generate_scales_info(src, dest, target_chunk_size=target,
-                                   dataset_type=typ, encoding=enc,
-                                   max_scales=max_scales)
+        if cli:
+            # the console script: argument parsing and its defaults included
+            args = [src, dest]
+            if target != 64:
+                args += ["--target-chunk-size", str(target)]
+            if typ:
+                args += ["--type", typ]
+            if enc:
+                args += ["--encoding", enc]
+            if max_scales:
+                args += ["--max-scales", str(max_scales)]
+            r = sandbox.run_cli("generate_scales_info", args)
+            if r.exc is not None:
+                raise r.exc
+            if r.status:
+                raise RuntimeError("generate-scales-info exit status %r: %s"
+                                   % (r.status, r.err[-200:]))
+        else:
+            with sandbox.quiet():
+                g.generate_scales_info(src, dest, target_chunk_size=target,
+                                       dataset_type=typ, encoding=enc,
+                                       max_scales=max_scales)
         with open(os.path.join(dest, "info")) as f:
             return json.load(f)
     finally:
@@ -263,10 +282,12 @@ def _via_file(info, target, max_scales, typ=None, enc=None):
 
 
 def _eval_params(col, typ, enc, dtype, nch, pre_enc, pre_type,
-                 extra_scale=False, pre_block=None):
+                 extra_scale=False, pre_block=None, cli=False):
     case = {"kind": "params", "type": typ, "encoding": enc,
             "data_type": dtype, "channels": nch, "input_encoding": pre_enc,
             "input_type": pre_type}
+    if cli:
+        case["via"] = "command line"
     size, res = (130, 70, 33), (1.0, 1.0, 2.0)
     info = base_info(size, res, enc=pre_enc or "raw", dtype=dtype, nch=nch)
     if pre_block is not None:
@@ -290,7 +311,7 @@ def _eval_params(col, typ, enc, dtype, nch, pre_enc, pre_type,
         info["type"] = pre_type
     eff_enc = enc or pre_enc or "raw"
     try:
-        out = _via_file(info, 64, None, typ=typ, enc=enc)
+        out = _via_file(info, 64, None, typ=typ, enc=enc, cli=cli)
     except Exception as exc:
         # jpeg needs uint8 with 1 or 3 channels, compressed_segmentation
         # needs 32/64-bit labels: refusing an impossible combination with
@@ -418,9 +439,14 @@ def run_unit(u):
                     for nch in (1, 2, 3):
                         for pre_enc in (None, "raw",
                                         "compressed_segmentation", "jpeg"):
-                            for pre_type in (None, "segmentation"):
+                            for pre_type in (None, "segmentation",
+                                             "image"):
                                 _eval_params(col, typ, enc, dtype, nch,
-                                             pre_enc, pre_type)
+                                             pre_enc, pre_type,
+                                             cli=(pre_type != "segmentation"
+                                                  and nch == 1) or (
+                                                 pre_type == "segmentation"
+                                                 and nch == 2))
                         _eval_params(col, typ, enc, dtype, nch, "raw",
                                      None, extra_scale=True)
                         for pre_block in ([8, 8, 8], [4, 4, 2]):
@@ -444,5 +470,6 @@ def replay(case):
         _eval_params(col, case["type"], case["encoding"], case["data_type"],
                      case["channels"], case["input_encoding"],
                      case["input_type"], case.get("extra_scale", False),
-                     case.get("input_block_size"))
+                     case.get("input_block_size"),
+                     cli=case.get("via") == "command line")
     return col.records()
